@@ -31,6 +31,25 @@ DECLS = {
            ["TH th = new TH(new Tri(), \"held\");", "echo(th.tag);", "echo(th.sides());", "echo(th.kind());"]),
     "S": ("static class S { public static int count = 4; public static function twice(int a) -> int { return f1(a) * 2; } }", ["f1"], ["echo(S.twice(3));", "echo(S.count);"]),
     "U": ("class U { public int u = 6; public constructor() -> U = default; public function viaS() -> int { return S.twice(this.u); } }", ["S"], ["U ou = new U();", "echo(ou.viaS());"]),
+    # abstractness inherited over three levels: a bodyless virtual in the root, a middle class that does not implement it (and is not
+    # marked abstract), leaves that do / do not implement it - 'new' on the unimplemented leaf must be rejected in EVERY order
+    "Abs": ("abstract class Abs { public constructor() -> Abs = default; public virtual function area() -> int; public function twice() -> int { return this.area() * 2; } }", [], []),
+    "Mid": ("class Mid extends Abs { public int sides = 4; public constructor() -> Mid { super(); } public function corners() -> int { return this.sides; } }", ["Abs"], []),
+    "Leaf": ("class Leaf extends Mid { public constructor() -> Leaf { super(); } public override function area() -> int { return 16; } }", ["Mid"],
+             ["Abs al = new Leaf();", "echo(al.twice());", "Leaf ll = new Leaf();", "echo(ll.corners());"]),
+    "BadLeaf": ("class BadLeaf extends Mid { public constructor() -> BadLeaf { super(); } }", ["Mid"], ["BadLeaf bl = new BadLeaf();", "echo(bl.corners());"]),
+    # a chain of generic bases under a plain root, instantiated by a non-generic leaf: every level contributes a field
+    "GB": ("class GB { public int gb = 1; public constructor() -> GB = default; public virtual function who() -> string { return \"GB\"; } }", [], ["GB ogb = new GB();", "echo(ogb.gb);"]),
+    "GH": ("class GH<T> extends GB { public int gh = 2; public constructor() -> GH<T> { super(); } public override function who() -> string { return \"GH\"; } }", ["GB"],
+           ["GH<int> ogh = new GH<int>();", "echo(ogh.gh);", "echo(ogh.gb);", "echo(ogh.who());"]),
+    "GG": ("class GG<T> extends GH<T> { public int gg = 3; public constructor() -> GG<T> { super(); } }", ["GH"],
+           ["GG<int> ogg = new GG<int>();", "echo(ogg.gg);", "echo(ogg.gh);", "echo(ogg.gb);"]),
+    "GD": ("class GD extends GG<int> { public int gd = 4; public constructor() -> GD { super(); } }", ["GG"],
+           ["GD ogd = new GD();", "echo(ogd.gd);", "echo(ogd.gg);", "echo(ogd.gh);", "echo(ogd.gb);", "GB up = new GD();", "echo(up.who());"]),
+    # static initialisers that read another class's static
+    "SB": ("class SB { public static int y = 5; public constructor() -> SB = default; }", [], ["echo(SB.y);"]),
+    "SA": ("class SA { public static int x = SB.y + 1; public constructor() -> SA = default; }", ["SB"], ["echo(SA.x);"]),
+    "SC": ("static class SC { public static int z = SA.x * 2; }", ["SA"], ["echo(SC.z);"]),
 }
 
 
